@@ -51,6 +51,22 @@ fn gen_set(rng: &mut Rng) -> (Maps, Category) {
             if !m.classes.contains_key(&name) { rename_family(&mut m, &t, &name); }
         }
     }
+    // packages at "any depth": the file of a class lies as deep in the directory tree as its TARGET name (source name if it has none) has
+    // package components - a ladder around every plausible limit of a directory walk
+    if rng.chance(1, 10) {
+        let loners: Vec<String> = m.classes.keys().filter(|k| split_inner(k).is_none() && !k.contains('$') && !m.classes.keys().any(|o| o.starts_with(&format!("{k}$")))).cloned().collect();
+        if !loners.is_empty() {
+            let t = rng.pick(&loners).clone();
+            let want = *rng.pick(&[8usize, 16, 30, 31, 32, 33, 40, 64]);
+            let prefix: String = (0..want).map(|i| format!("{}/", ["d", "e", "ü", "x1"][i % 4])).collect();
+            let c = m.classes.get_mut(&t).unwrap();
+            match c.names.get(1).cloned().flatten() {
+                Some(dst) if !dst.contains('$') => { c.names[1] = Some(format!("{prefix}{dst}")); }
+                Some(_) => {}
+                None => { let name = format!("{prefix}{t}"); if !m.classes.contains_key(&name) { rename_family(&mut m, &t, &name); } }
+            }
+        }
+    }
     // deep nesting now and then: a chain of 13..=28 inner classes below one top-level class (the text form indents one tab per level)
     if rng.chance(1, 12) {
         let tops: Vec<String> = m.classes.keys().filter(|k| split_inner(k).is_none() && !k.contains('$')).cloned().collect();
